@@ -315,7 +315,9 @@ func runC02(cfg config) {
 			}
 			return true
 		}
+		byValue := false
 		evaluate := func(src string, names []navStep) (string, system.Collection) {
+			byValue = false
 			e, err := compile(src)
 			if err != nil {
 				otherErrs = append(otherErrs, src+": compile: "+err.Error())
@@ -344,6 +346,7 @@ func runC02(cfg config) {
 					} else {
 						for _, c := range nb.copies {
 							if !usedCopy[c.uid] && sameNames(c, names) && c.msg.ProtoReflect().Descriptor() == pm.ProtoReflect().Descriptor() && proto.Equal(c.msg, pm) {
+								byValue = true
 								uid = c.uid
 								usedCopy[c.uid] = true
 								break
@@ -355,6 +358,7 @@ func runC02(cfg config) {
 									continue
 								}
 								if st, ok := jsonAt(c.label); ok && st.val == s.GetValue() {
+									byValue = true
 									uid = c.uid
 									usedSynth[c.uid] = true
 									break
@@ -382,6 +386,20 @@ func runC02(cfg config) {
 				names = names[1:]
 			}
 			o, _ := evaluate(src, names)
+			// an index placed after an un-indexed repeated element counts over the flattened collection: a result that can
+			// only be identified by value (a copy from a contained resource, a synthesized reference string) is ambiguous there
+			if strings.Contains(o, " 0%N") || strings.Contains(o, "[0%N") || byValue {
+				flat := false
+				for _, part := range strings.Split(src, ".") {
+					if strings.Contains(part, "[") && flat {
+						kinds["skipped-ambiguous"]++
+						return
+					}
+					if !strings.Contains(part, "[") {
+						flat = true
+					}
+				}
+			}
 			srcs = append(srcs, fmt.Sprintf("%d:%s=>%s", len(srcs), src, o))
 			queries = append(queries, fmt.Sprintf("(%s, %s, %s)", coqList(steps), o, coqBool(valuesOK)))
 			totalQueries++
